@@ -831,9 +831,16 @@ pub fn gen_case(rng: &mut Rng, tier: &str, profile: &str, stats: &mut Stats) -> 
             let k = key_at(&local, ob, rng);
             ops.push(format!("kins {} v{}:- c o", hx(&k), 7_100_000 + 8 * j));
         }
+        // and a few buckets holding a single node each (a walk that stops counting too early loses them)
+        for b in [3usize, 40, 130, 200] {
+            if b != hb && b != ob && rng.chance(2, 3) {
+                let k = key_at(&local, b, rng);
+                ops.push(format!("kins {} v{}:- c o", hx(&k), 7_200_000 + 8 * b as u64));
+            }
+        }
         ops.push("ksleep 450".into());
         let other = ob as u64 + 1;
-        if rng.chance(1, 3) {
+        if rng.chance(1, 2) {
             // (or a closest-nodes walk, which promotes the candidate while it runs)
             let target: [u8; 32] = rng.bytes(32).try_into().unwrap();
             ops.push(format!("kclosest {}", hx(&target)));
